@@ -21,4 +21,29 @@ TEXT = {
         "level": "Generated search: arbitrary 48..2048-byte NTP datagrams, CSPTP headers and TLVs, NTS packets within the size limit, server cookies, NTS-KE messages under generated read-size schedules. Exploration; exhaustive only for the enumerated NTP sub-fields.",
         "note": "NTS-KE AEAD lists with several algorithms and hostile length fields are outside the generator (see DESIGN C14 limits; C08 owns hostile input). Found and repaired P2 (a656d56) and P7 (2bdea76).",
     },
+    "C01": {
+        "technique": "model-based property testing (rapid): generated configurations and multi-round source histories drive the real sync.Run inside a testing/synctest bubble with a scripted system clock, scripted reference clocks/peers (in time, error, late, blocking) and a recording clock discipline; oracle = refusal predicate, one-correction-per-round invariant, the statement's bound, and an exact big-integer reference model of FTM/cutoff/clamp/midpoint",
+        "level": "Generated search over configurations (incl. inadmissible ones), 0..7 reference clocks and peers, 1..8 rounds per history, offsets over the whole int64 range dense at the cutoff and both bounds. Exploration: tens of thousands of rounds per quick run, millions in the thorough tier.",
+        "note": "The real SystemClock (needs CAP_SYS_TIME) and the PLL are replaced by fakes; Drift proportionality is covered by C18. NaN impact factors are not generated. A real-time watchdog (90 s per case, normal cost < 1 ms) converts a hang into a violation with a replay file.",
+    },
+    "C12": {
+        "technique": "stateful property testing (rapid) of ntske.Provider under virtual time (testing/synctest) with the race detector: generated advance/Current/Get/burst sequences checked against a model of every key ever returned",
+        "level": "Generated search over call sequences spanning up to months of virtual time with boundary advances (24 h, 48 h, 72 h +-1 ns) and concurrent bursts of 2..32 goroutines. Exploration; concurrency coverage is what the Go scheduler produces within a burst plus the race detector's verdict.",
+        "note": "Virtual time stands for time.Now; key material randomness is treated as opaque (only distinctness is checked).",
+    },
+    "C16": {
+        "technique": "property-based testing (rapid) of ReferenceClockClient.MeasureClockOffsets under virtual time (testing/synctest) with the race detector: generated completion schedules, deadline/cancel/none, overlapping second collections; oracle = exact return instant, exactly-once placement of in-time successes, untouched tail, bubble-exit leak detection",
+        "level": "Generated search over 0..12 clocks with completion times before/at/after the stop instant, blocked-until-cancelled and late-after-cancel clocks, success/error outcomes. Exploration; the order among goroutines ready at the same virtual instant is the runtime's choice and the oracle accepts every admissible order.",
+        "note": "Leak detection relies on synctest.Run reporting durably blocked goroutines at bubble exit. A 60 s real-time watchdog per case turns a spin/hang into a violation.",
+    },
+    "C17": {
+        "technique": "property-based testing (rapid) of both filters on generated exchange histories: naive reference model for the lucky-packet filter; for the Ntimed filter raw-offset checks for the first three samples, a metamorphic history-independence relation after reset/epoch change, and a harness replica of the running statistics that marks samples clearly inside the learned bounds",
+        "level": "Generated search over histories of up to 100 samples, capacities 1..32, picks 1..40, resets and epoch changes at arbitrary positions. Exploration.",
+        "note": "Ntimed samples within a relative 1e-9 guard band of a learned limit, or with offsets beyond ~1 day (variance estimate dominated by cancellation), are judged only by the first two oracles. One fake clock is registered per process to supply the epoch.",
+    },
+    "C19": {
+        "technique": "stateful property testing (rapid): generated (dt, offset, weight) histories with external epoch changes drive the real Pll against a recording fake clock; oracle = statement-level predicates on every Step/Adjust call",
+        "level": "Generated search over histories of up to 60 updates with boundary time steps (2 s, 6 s +-1 ns), offsets around +-1 ms and over the whole int64 range, weights around 3/50/150 and +Inf. Exploration.",
+        "note": "Gaps between updates are bounded by 1e5 s (a ~292-year gap overflows the duration conversion; recorded as out of scope). MinInt64 offsets are exempt from 'by exactly the offset'.",
+    },
 }
